@@ -30,7 +30,11 @@ EDGE_TEXTS = {
                 "p(1..9223372036854775807).", "p(X) :- X = 1/0.", "p(X) :- X = 1\\0.", "p(" + "(" * 200 + "1" + ")" * 200 + ").", "p(" + "-" * 12 + "1).",
                 "p(" + ",".join(["1"] * 400) + ").", "p" * 3000 + ".", " ".join(f"p{i}(X) :- q{i}(X)." for i in range(300)), "p(" + "1+" * 12 + "1).",
                 "p :- " + ", ".join(["q"] * 500) + ".", "V18446744073709551615(1).", "p(V18446744073709551615) :- q(V18446744073709551615).",
-                "p(V1, V2, V) :- q(V1, V2, V).", "a. a__s. p(a).", "a. a__s. p(ha).", "a. a__s. a__s__s. p(a, a__s).", "ha. ha__s. p(ha). a :- p(a).", "p(X) :- q(X), not not not p(X).", "{p(X)}.", "{p(X)} :- .", ":- .", "p(a\x00b).", "p(é)."],
+                "p(V1, V2, V) :- q(V1, V2, V).", "a. a__s. p(a).", "a. a__s. p(ha).", "a. a__s. a__s__s. p(a, a__s).", "ha. ha__s. p(ha). a :- p(a).", "p(X) :- q(X), not not not p(X).",
+                # several rules for one predicate, only some of them with variables named like the head variables of tau* / completion
+                "p(V1) :- q(V1). p(X) :- q(X), X > 0.", "p(V2) :- q(V2), not q(V1), q(V1). p(V1) :- q(V1), V1 < 0. p(X) :- q(X), X = 3.",
+                "p(X) :- q(X), q(V1), V1 = X. p(V) :- q(V), V != 1.", "p(N0) :- q(N0), N0 = 1..3. p(I) :- q(I), q(J), I = J + 1. p(Z) :- q(Z1), Z = Z1.",
+                "{p(X)}.", "{p(X)} :- .", ":- .", "p(a\x00b).", "p(é)."],
     "theory": ["", "% c", "forall X p(X).", "p(9223372036854775808).", "p(-9223372036854775809).", "forall X$i (X$i = 9223372036854775807 + 1).",
                "p(" + "(" * 200 + "1" + ")" * 200 + ").", "not " * 400 + "p.", "(" * 300 + "p" + ")" * 300 + ".", "p and " * 400 + "p.",
                "forall " + " ".join(f"X{i}" for i in range(300)) + " p(X0).", "exists X$i " * 14 + "p(X$i).", "p <-> " * 200 + "p.", "1 < " * 300 + "2.",
